@@ -547,6 +547,9 @@ impl NodeRecordStore {
                 PrettyPrintRecordKey::from(&farthest_record)
             );
             self.remove(&farthest_record);
+        } else {
+            // full without any record to evict (a capacity of zero): nothing can be accepted
+            return Err(Error::MaxRecords);
         }
 
         Ok(())
